@@ -123,7 +123,7 @@ func VerifC08_Ownership() {
 		return
 	}
 	if b1 != nil || b2 != nil {
-		vx.Observe("b1", keepB1)
+		vx.Observe("b1len", len(keepB1)) // the text depends on map iteration order
 		vx.Assert("earlier-buffer-not-overwritten", len(b1) == len(keepB1) && vx.BytesEq(b1, keepB1))
 		vx.Assert("results-share-no-storage", !vx.Alias(b1, b2))
 	} else {
